@@ -1127,28 +1127,35 @@ func main() {
 		})
 		return found
 	}, nil)
-	// tasks.responses: an *Error whose data cannot be encoded is reported without it
-	emitCond(root, c, "tasks", "responses", "dropErrorData", "(n : Int) (dataValid : Bool) : Bool", func(fd *ast.FuncDecl) ast.Expr {
-		var found ast.Expr
-		ast.Inspect(fd.Body, func(n ast.Node) bool {
-			if is, ok := n.(*ast.IfStmt); ok && found == nil && len(is.Body.List) == 1 && regexp.MustCompile(`^\w+ = &Error\{Code: \w+\.Code, Message: \w+\.Message\}$`).MatchString(src(is.Body.List[0])) {
-				found = is.Cond
+	// tasks.responses / ClientOptions.handleCallback: an *Error whose data cannot be encoded is
+	// reported without it (the test may sit in an unexported helper, and the variable may have any name)
+	for _, it := range [][3]string{{"tasks", "responses", "dropErrorData"}, {"ClientOptions", "handleCallback", "dropCallbackErrorData"}} {
+		atoms := map[string]string{}
+		stripped := regexp.MustCompile(`^(\w+ = |return )&Error\{Code: \w+\.Code, Message: \w+\.Message\}$`)
+		emitCond(root, c, it[0], it[1], it[2], "(n : Int) (dataValid : Bool) : Bool", func(fd *ast.FuncDecl) ast.Expr {
+			var found ast.Expr
+			inspectAll(withHelpers(root, fd), func(n ast.Node) bool {
+				if is, ok := n.(*ast.IfStmt); ok && found == nil && len(is.Body.List) >= 1 && stripped.MatchString(src(is.Body.List[len(is.Body.List)-1])) {
+					found = is.Cond
+				}
+				return true
+			})
+			if found != nil {
+				ast.Inspect(found, func(n ast.Node) bool {
+					if call, ok := n.(*ast.CallExpr); ok && len(call.Args) == 1 && strings.HasSuffix(src(call.Args[0]), ".Data") {
+						switch src(call.Fun) {
+						case "len":
+							atoms[src(call)] = "n"
+						case "json.Valid":
+							atoms[src(call)] = "dataValid"
+						}
+					}
+					return true
+				})
 			}
-			return true
-		})
-		return found
-	}, map[string]string{"len(e.Data)": "n", "json.Valid(e.Data)": "dataValid"})
-	// ClientOptions.handleCallback: the same for the reply to a server callback
-	emitCond(root, c, "ClientOptions", "handleCallback", "dropCallbackErrorData", "(n : Int) (dataValid : Bool) : Bool", func(fd *ast.FuncDecl) ast.Expr {
-		var found ast.Expr
-		ast.Inspect(fd.Body, func(n ast.Node) bool {
-			if is, ok := n.(*ast.IfStmt); ok && found == nil && len(is.Body.List) == 1 && regexp.MustCompile(`^\w+ = &Error\{Code: \w+\.Code, Message: \w+\.Message\}$`).MatchString(src(is.Body.List[0])) {
-				found = is.Cond
-			}
-			return true
-		})
-		return found
-	}, map[string]string{"len(e.Data)": "n", "json.Valid(e.Data)": "dataValid"})
+			return found
+		}, atoms)
+	}
 	// jmessages.toJSON: a single non-batch message is sent bare
 	emitCond(root, c, "jmessages", "toJSON", "toJSONSingle", "(n : Int) (b0 : Bool) : Bool", func(fd *ast.FuncDecl) ast.Expr {
 		if is, ok := fd.Body.List[0].(*ast.IfStmt); ok && len(is.Body.List) == 1 && src(is.Body.List[0]) == "return j[0].toJSON()" {
